@@ -101,6 +101,7 @@ type Exec struct {
 	InitSkipped []string
 	GlobalNames  map[ObjID]string
 	raceSeen     map[string]int
+	RepoPrefix   string
 	noTrack      bool
 	TwoPass      bool
 	Pass1Preempt int
